@@ -26,6 +26,7 @@ type LoopSpec struct {
 
 type AtSpec struct {
 	Anchor string // e.g. "call Read#0", "return#1"
+	Every  bool   // "at every send ...": applies to each occurrence, zero occurrences allowed
 	Kind   string // ghost | assert | assume
 	Target string // for ghost: assignment target (spec lvalue source)
 	TExpr  SExpr
@@ -429,6 +430,21 @@ func (c *Contracts) loadFile(path, pkg string, trusted bool) error {
 				return fmt.Errorf("%s:%d: bad at clause", path, rc.line)
 			}
 			as := AtSpec{Anchor: strings.ReplaceAll(strings.Join(strings.Fields(m[1]), " "), " #", "#"), Kind: m[2]}
+			if strings.HasPrefix(as.Anchor, "every ") {
+				as.Anchor = strings.TrimPrefix(as.Anchor, "every ")
+				as.Every = true
+				if strings.Contains(as.Anchor, "#") {
+					return fmt.Errorf("%s:%d: `at every` takes an anchor without ordinal", path, rc.line)
+				}
+				// zero occurrences are fine for `every`, a misspelt anchor kind is not
+				kind := strings.TrimPrefix(as.Anchor, "before ")
+				if f := strings.Fields(kind); len(f) == 0 || !map[string]bool{"call": true, "send": true, "recv": true, "close": true, "mapupdate": true, "mapdelete": true, "return": true, "go": true, "store": true, "select": true, "next": true}[f[0]] {
+					return fmt.Errorf("%s:%d: unknown anchor kind in `at every %s`", path, rc.line, as.Anchor)
+				}
+				if strings.HasPrefix(as.Anchor, "before ") && !map[string]bool{"call": true, "send": true, "recv": true, "close": true, "mapupdate": true, "mapdelete": true, "go": true}[strings.Fields(kind)[0]] {
+					return fmt.Errorf("%s:%d: `before` is not available for anchor kind %s", path, rc.line, kind)
+				}
+			}
 			rest := m[3]
 			if as.Kind == "ghost" {
 				i := indexTopAssign(rest)
